@@ -66,7 +66,7 @@ fn gen_file_protein(fmt: &str, rng: &mut Rng, n: usize) -> (String, Vec<String>)
     for k in 0..n {
         let w = 1 + rng.below(5);
         let id = format!("PR{:04}.{}", rng.below(10000), 1 + rng.below(9));
-        let name = format!("PNAME{}", k);
+        let name = if rng.below(3) == 0 { format!("{}{}", ["β-catenin", "Müller", "αβγ"][rng.below(3)], k) } else { format!("PNAME{}", k) };
         let mut order: Vec<usize> = (0..20).collect();
         if rng.below(2) == 0 { order.reverse(); } if rng.below(2) == 0 { order.swap(3, 17); }
         match fmt {
@@ -117,7 +117,8 @@ pub fn gen_file(fmt: &str, rng: &mut Rng, n: usize) -> (String, Vec<String>) {
     for k in 0..n {
         let w = if rng.below(12) == 0 { 99 + rng.below(8) } else { 1 + rng.below(6) };   // occasionally 99..106 positions (3-digit row labels)
         let id = format!("MA{:04}.{}", rng.below(10000), 1 + rng.below(9));
-        let name = format!("NAME{}", k);
+        // "fields as written": names are not always ASCII (NF-κB, Krüppel, ...): multi-byte characters in every text field the formats have
+        let name = if rng.below(3) == 0 { format!("{}{}", ["NF-κB", "Krüppel", "Señal", "ΩmegaΔ", "日本語", "é"][rng.below(6)], k) } else { format!("NAME{}", k) };
         // counts[i][sym] with sym in A C T G order of Dna::symbols() (index 0..4), N = 0
         // count magnitudes: mostly small; for the two JASPAR formats (exact integer parsers) sometimes counts that need up to 32 bits,
         // incl. values no f32 can represent; TRANSFAC keeps its table as f32, so it stays below 2^24 there
@@ -148,10 +149,10 @@ pub fn gen_file(fmt: &str, rng: &mut Rng, n: usize) -> (String, Vec<String>) {
                 for i in 0..w { text.push_str(&format!("{:02}     {:>2}     {:>2}     {:>2}     {:>2}      N\n", i + 1, counts[i][0], counts[i][1], counts[i][2], counts[i][3])); }
                 text.push_str("XX\n");
                 // optional blocks after the matrix, as in TRANSFAC releases: binding sites, comments, and a literature reference
-                if rng.below(3) == 0 { text.push_str("BA  5 elements from 5 genes\nXX\nBS  AGAACCAGCTGTGGAATG; R05143; 7; 18;; p.\nBS  AAAAACAGCTGTTGTCAT; R05144; 7; 18;; p.\nXX\nCC  compiled sequences\nXX\n"); }
+                if rng.below(3) == 0 { text.push_str("BA  5 elements from 5 genes\nXX\nBS  AGAACCAGCTGTGGAATG; R05143; 7; 18;; p.\nBS  AAAAACAGCTGTTGTCAT; R05144; 7; 18;; p.\nXX\nCC  compiled sequences – Krüppel-like, 5′→3′\nXX\n"); }
                 if rng.below(2) == 0 {
                     text.push_str("RN  [1]; RE0001814.\nRX  PUBMED: 2833704.\nRA  Mermod N., Williams T. J., Tjian R.\nRT  Enhancer binding factors AP-4 and AP-1 act in concert\nRL  Nature 332:557-561 (1988).\nXX\n");
-                    if rng.below(2) == 0 { text.push_str("RN  [2]\nRA  Hu Y.-F., Luescher B.\nRL  Genes Dev. 4:1741-1752 (1990).\nXX\n"); }
+                    if rng.below(2) == 0 { text.push_str("RN  [2]\nRA  Hu Y.-F., Lüscher B., Ørsted Å.\nRT  Über die Bindung von NF-κB\nRL  Genes Dev. 4:1741–1752 (1990).\nXX\n"); }
                 }
                 text.push_str("//\n");
                 sigs.push(format!("{:?}|{:?}|{:?}|{}", Some(id.as_str()), Some(id.as_str()), Some(name.as_str()), m));
